@@ -266,6 +266,37 @@ structure KeyFile where
   version : Nat
   deriving DecidableEq, Repr
 
+/-! #### JSON text of the byte fields (`hexutil.Bytes`) -/
+
+def toHexChars (b : Bytes) : List Char := b.flatMap fun x => [hexDigit (x / 16), hexDigit (x % 16)]
+
+/-- `hexutil.Bytes.MarshalText`: "0x" followed by lower-case hex -/
+def hexutilEncode (b : Bytes) : List Char := '0' :: 'x' :: toHexChars b
+
+/-- `hexutil.Bytes.UnmarshalText`: needs the "0x" (or "0X") prefix and an even number of hex digits of either case -/
+def hexutilDecode : List Char → Option Bytes
+  | '0' :: 'x' :: rest => ofHexChars rest
+  | '0' :: 'X' :: rest => ofHexChars rest
+  | _ => none
+
+/-- the byte-valued fields of the key file as they appear in the JSON text -/
+structure KeyFileText where
+  cipherData : List Char
+  nonce : List Char
+  salt : List Char
+  deriving DecidableEq, Repr
+
+/-- `KeyFile.Write` (the three `hexutil.Bytes` fields) -/
+def KeyFile.text (kf : KeyFile) : KeyFileText :=
+  ⟨hexutilEncode kf.cipherData, hexutilEncode kf.nonce, hexutilEncode kf.salt⟩
+
+/-- `ReadKeyFile` (the three `hexutil.Bytes` fields); `none` = JSON decoding error -/
+def KeyFileText.parse (t : KeyFileText) : Option (Bytes × Bytes × Bytes) := do
+  let c ← hexutilDecode t.cipherData
+  let n ← hexutilDecode t.nonce
+  let s ← hexutilDecode t.salt
+  pure (c, n, s)
+
 /-- `passwordHash.Set` / `SetFromJSON`: `copy(h.password[:], pw[:32])` of the Argon2id output -/
 def passwordKey (C : CryptoFns) (params : List Nat) (pw salt : Bytes) : Bytes := (C.kdf params pw salt).take 32
 
